@@ -623,6 +623,10 @@ async fn body(sc: &EvSc, bounds: Bounds, prop: &str) -> Obs {
 	}
 	drop(txs);
 	main.abort();
+	// the recording handlers hold clones of the Config they are installed in: break the
+	// reference cycle, or every execution leaks its Config
+	wx.config.on_error(|_| {});
+	wx.config.on_action(|a| a);
 	let _ = Duration::ZERO;
 	let (log, violations, qc, nontrivial) = w(|x| {
 		(
